@@ -114,7 +114,13 @@ pub fn run_xargs(sb: &Sandbox, o: &XOpts) -> XRun {
             });
         }
     }
-    let mut child = c.spawn().expect("spawn xargs");
+    let mut child = match c.spawn() {
+        Ok(ch) => ch,
+        Err(e) => {
+            // e.g. the environment asked for does not fit the stack limit asked for: nothing was run
+            return XRun { execs: vec![], cwds: vec![], sums: vec![], exit: -3, stderr: format!("spawn: {}", e).into_bytes() };
+        }
+    };
     let t0 = std::time::Instant::now();
     let exit;
     loop {
